@@ -37,7 +37,7 @@ var seqSpecs = []struct {
 	k      int
 	series string
 	i      int64
-}{{0, "ctr", 0}, {1, "ctr", 1}, {2, "ctr", 2}, {0, "ctr", 339}, {2, "ctr", 4870}, {1, "len", 0}}
+}{{0, "ctr", 0}, {1, "ctr", 1}, {2, "ctr", 2}, {0, "ctr", 479}, {2, "ctr", 4870}, {1, "len", 0}}
 
 type histEntry struct {
 	Fn  string `json:"fn"`
